@@ -53,8 +53,8 @@ theorem c10_tree_append (c : Cfg) (hw : 1 ≤ c.w) (t : FNode) (chunks : List Ch
 
 /-- a fresh DagModifier over a tree of the guard satisfies the invariant and denotes (content, position 0) -/
 theorem c10_initial (c : Cfg) (hw : 1 ≤ c.w) (hk : 1 ≤ c.k) (t : FNode) (ht : TOK c.w t) :
-    Inv c { cur := t } ∧ C10.abs { cur := t } = { bytes := content t, pos := 0 } :=
-  ⟨⟨hw, hk, ht, by intro buf h; simp at h⟩, by simp [C10.abs, DM.bytes]⟩
+    Inv c { cur := t } ∧ C10.abs { cur := t } = { bytes := content t, pos := 0, anchor := 0 } :=
+  ⟨⟨hw, hk, ht, by intro buf h; simp at h⟩, by simp [C10.abs, DM.bytes, DM.anchor]⟩
 
 /-- the starting files of the hypothesis: every trickle.Layout output and every balanced.Layout output
 (any number of chunks) for the width the modifier is configured with -/
@@ -93,7 +93,7 @@ theorem c10_refines (c : Cfg) (ops : List Op) : ∀ (s : DM), Inv c s →
 
 /-- … from a starting file of the hypothesis -/
 theorem c10_refines_from_file (c : Cfg) (hw : 1 ≤ c.w) (hk : 1 ≤ c.k) (t : FNode) (ht : TOK c.w t)
-    (ops : List Op) : runModel c { cur := t } ops = runSpec { bytes := content t, pos := 0 } ops := by
+    (ops : List Op) : runModel c { cur := t } ops = runSpec { bytes := content t, pos := 0, anchor := 0 } ops := by
   obtain ⟨h1, h2⟩ := c10_initial c hw hk t ht
   rw [c10_refines c ops _ h1, h2]
 
@@ -107,8 +107,8 @@ theorem c10_no_lost_write (c : Cfg) (s : DM) (h : Inv c s) :
 /-- Sync never changes what the file denotes -/
 theorem c10_sync_transparent (c : Cfg) (s : DM) (h : Inv c s) :
     ∃ s1, sync c s = some s1 ∧ C10.abs s1 = C10.abs s ∧ s1.wrBuf = none := by
-  obtain ⟨s1, y1, _, y3, y4, y5, _⟩ := sync_ok c s h
-  exact ⟨s1, y1, by simp [C10.abs, DM.bytes, y3, y4, y5], y3⟩
+  obtain ⟨s1, y1, _, y3, y4, y5, y6⟩ := sync_ok c s h
+  exact ⟨s1, y1, by simp [C10.abs, DM.bytes, DM.anchor, y3, y4, y5, y6], y3⟩
 
 /-! ## Non-vacuity: a concrete history through buffering, sparse extension, truncation and re-reading -/
 
@@ -119,8 +119,15 @@ private def hist : List Op :=
 
 example : t0.map (fun t => (wellSized t, tshape 2 (-1) t)) = some (true, true) := by decide +kernel
 example : t0.map (fun t => runModel cfg { cur := t } hist) =
-    some [.pos 4, .wrote 5, .wrote 1, .pos 0, .data [1, 2, 3, 4], .ok, .wrote 1, .size 5, .content [1, 2, 3, 0, 8]] := by
+    some [.pos 4, .wrote 5, .wrote 1, .pos 0, .data [1, 2, 3, 4], .ok, .wrote 1, .size 4, .content [1, 2, 3, 8]] := by
   decide +kernel
+/-- the two truncation rules side by side: an offset reached by reading is taken back to the new end (mfs
+TestTruncateAndWrite), an offset left by a write stays beyond it (mod TestDagSync) -/
+example : runModel cfg { cur := .node 0 [] }
+    [.write [1, 2, 3, 4], .seek 0 0, .read 9, .truncate 0, .write [5, 6], .getNode] =
+    [.wrote 4, .pos 0, .data [1, 2, 3, 4], .ok, .wrote 2, .content [5, 6]] := by decide +kernel
+example : runModel cfg { cur := .node 0 [] } [.write [1, 2, 3], .sync, .truncate 0, .write [5], .getNode] =
+    [.wrote 3, .ok, .ok, .wrote 1, .content [0, 0, 0, 5]] := by decide +kernel
 
 /-- a balanced, two-level starting file (width 2, 4 chunks): in the hypothesis, and a history that grows it -/
 private def tb : Option FNode := (balancedLayout { w := 2 } [[1, 2], [3], [4, 5], [6]]).map (·.root)
